@@ -516,7 +516,21 @@ func TestSafety(t *testing.T) {
 		if flagRe {
 			flags |= slog.Lprivacypathregexp
 		}
+		npaths := rapid.IntRange(1, 4).Draw(t, "npaths")
+		var paths []string
+		for i := 0; i < npaths; i++ {
+			paths = append(paths, genPath(t, ms))
+		}
+		// the same paths are asked about inside the flag scopes too (other privacy flags in force): an answer given there
+		// is not the answer under the final flags
+		vlib.FlagScopeHook = func() {
+			for _, p := range paths {
+				_ = slog.Safety(p)
+			}
+			_ = slog.SafetyFiles(paths)
+		}
 		vlib.SetFlagsVia(rapid.SampledFrom([]int{0, 0, 1, 2, 3, 4}).Draw(t, "flagsHow"), flags, slog.Lprivacypath|slog.Lprivacypathregexp|slog.Lcaller)
+		vlib.FlagScopeHook = nil
 		h := strings.Join(hist, "; ") + fmt.Sprintf(" flags{privacypath=%v regexp=%v}", flagPath, flagRe)
 		if rapid.IntRange(0, 4).Draw(t, "chdir") == 0 {
 			// the process changes its working directory after start-up: a relative form must be relative to where
@@ -528,11 +542,7 @@ func TestSafety(t *testing.T) {
 				v.labels["working-directory-changed"] = true
 			}
 		}
-		npaths := rapid.IntRange(1, 4).Draw(t, "npaths")
-		var paths []string
-		for i := 0; i < npaths; i++ {
-			p := genPath(t, ms)
-			paths = append(paths, p)
+		for _, p := range paths {
 			checkPath(t, p, ms, regexps, flagPath, flagRe, h, v)
 		}
 		for _, m := range ms[2:] {
